@@ -20,7 +20,13 @@ scan(Li, G) :-
     findall(L-R, ( between(1, 120, K), L is K * 17, outcome(G, L, R) ), Ps2),
     ( Ps == Ps2 -> true ; format("NONDET inner=~d~n", [Li]) ),
     ( append(_, [L1-ok, L2-exceeded|_], Ps) -> format("NONMONO inner=~d ok_at=~d exceeded_at=~d~n", [Li, L1, L2]) ; true ).
+% an enclosing limit survives an inner limited call, whether that call exits deterministically or not
+step :- call_with_inference_limit(true, 10, _).
+stepnd :- call_with_inference_limit((true ; true), 10, _).
+expect(G, L, Want) :- ( outcome(G, L, R) -> true ; R = failed ), ( R == Want -> true ; format("WRONG limit=~d goal=~q got=~q expected=~q~n", [L, G, R, Want]) ).
 main :- member(Li, [30, 60, 120, 250, 400, 1000]), goal(Li, G), scan(Li, G), fail.
+main :- expect((step, count(1000)), 200, exceeded), expect((count(1000), step), 200, exceeded), expect((step, step, count(1000)), 300, exceeded),
+        expect((stepnd, count(1000)), 200, exceeded), expect((step, count(10)), 2000, ok), expect(count(1000), 200, exceeded), fail.
 main :- halt.
 :- initialization(main).
 """
@@ -35,7 +41,7 @@ def replay_all(repo, by_ob, scratch, log):
     p = subprocess.run([binary, "-f", "--no-add-history", path], capture_output=True, text=True, timeout=600, stdin=subprocess.DEVNULL)
     fails = []
     for line in p.stdout.split("\n"):
-        if line.startswith("NONMONO") or line.startswith("NONDET"):
+        if line.startswith("NONMONO") or line.startswith("NONDET") or line.startswith("WRONG"):
             fails.append({"goal": line.strip(), "got": ["v", line.strip()], "expected": ["v", "outcome monotone in the limit and deterministic"], "op": "cwil", "a": None, "b": None})
     log.append("inference-limit replay: %d anomalies (exit %s)" % (len(fails), p.returncode))
     return {ob: fails for ob in by_ob}
